@@ -9,6 +9,7 @@ import (
 	"testing"
 
 	"github.com/tidwall/geojson"
+	"github.com/tidwall/geojson/geometry"
 	"pgregory.net/rapid"
 	"verifharness/fw"
 	"verifharness/gj"
@@ -18,6 +19,27 @@ import (
 
 type docCase struct {
 	Text string `json:"text"`
+	// index options only (they never change meaning, C08): child / geometry thresholds and kind; 0,0,0 = defaults
+	IdxChildren int `json:"idx_children,omitempty"`
+	IdxGeometry int `json:"idx_geometry,omitempty"`
+	IdxKind     int `json:"idx_kind,omitempty"`
+}
+
+func (c docCase) opts() *geojson.ParseOptions {
+	if c.IdxChildren == 0 && c.IdxGeometry == 0 && c.IdxKind == 0 {
+		return nil
+	}
+	o := *geojson.DefaultParseOptions
+	if c.IdxChildren > 0 {
+		o.IndexChildren = c.IdxChildren
+	}
+	if c.IdxGeometry > 0 {
+		o.IndexGeometry = c.IdxGeometry
+	}
+	if c.IdxKind > 0 {
+		o.IndexGeometryKind = geometry.IndexKind(c.IdxKind)
+	}
+	return &o
 }
 
 func structuralLabel(ref *refjson.Ref) string {
@@ -55,7 +77,7 @@ func structuralLabel(ref *refjson.Ref) string {
 
 func c07Check(c docCase) fw.Outcome {
 	v, ref, why := refjson.Classify(c.Text)
-	obj, err := geojson.Parse(c.Text, nil)
+	obj, err := geojson.Parse(c.Text, c.opts())
 	if (obj == nil) == (err == nil) {
 		return fw.Failf("totality", "Parse returned (%v, %v): exactly one of object / error expected; text %q", obj, err, c.Text)
 	}
@@ -93,12 +115,21 @@ func c07Check(c docCase) fw.Outcome {
 	return fw.OK(label, nt)
 }
 
+func c07Idx(t *rapid.T, c docCase) docCase {
+	if rapid.Bool().Draw(t, "idxopts") {
+		c.IdxChildren = rapid.SampledFrom([]int{0, 1, 2, 3}).Draw(t, "idxch")
+		c.IdxGeometry = rapid.SampledFrom([]int{0, 1, 4, 17}).Draw(t, "idxg")
+		c.IdxKind = rapid.IntRange(0, 2).Draw(t, "idxk")
+	}
+	return c
+}
+
 func c07GenWellFormed(t *rapid.T) docCase {
-	return docCase{Text: gj.Doc(t, gj.Opts{MaxDepth: 3, Noise: true, Lattice: rapid.Bool().Draw(t, "lattice")})}
+	return c07Idx(t, docCase{Text: gj.Doc(t, gj.Opts{MaxDepth: 3, Noise: true, Lattice: rapid.Bool().Draw(t, "lattice")})})
 }
 
 func c07GenMutated(t *rapid.T) docCase {
-	return docCase{Text: gj.Doc(t, gj.Opts{Mutations: rapid.IntRange(1, 2).Draw(t, "nmut"), MaxDepth: 3, Noise: rapid.Bool().Draw(t, "noise"), Lattice: true})}
+	return c07Idx(t, docCase{Text: gj.Doc(t, gj.Opts{Mutations: rapid.IntRange(1, 2).Draw(t, "nmut"), MaxDepth: 3, Noise: rapid.Bool().Draw(t, "noise"), Lattice: true})})
 }
 
 func c07Subs() []fw.Sub {
